@@ -27,8 +27,30 @@ pub open spec fn pinged(c: u64) -> bool { c >= 2 }
 pub open spec fn closed(c: u64) -> bool { c % 2 == 1 }
 //@ endregion
 
-//@ item src/sources/ping/eventfd.rs / fn drain_ping props=C03 ret=r sigonly
+//@ region drain_specs props=C03
+/// the u64 a native-endian 8-byte string denotes (ghost view of `u64::from_ne_bytes`)
+pub uninterp spec fn ne_val(b: Seq<u8>) -> u64;
+/// stand-in for `u64::from_ne_bytes` (rule R17, as for to_ne_bytes in send_ping)
+#[verifier::external_body]
+fn u64_from_ne_bytes(b: [u8; 8]) -> (r: u64)
+    ensures r == ne_val(b@),
+{ u64::from_ne_bytes(b) }
+/// ASSUMED (kernel, eventfd(2)): a successful read of an eventfd returns exactly 8 bytes, the native-endian counter -- the
+/// value `pending_counter()` stands for -- (and resets it)
+#[verifier::external_body]
+pub broadcast proof fn axiom_eventfd_read(fd: int, data: Seq<u8>)
+    requires #[trigger] crate::rustix::io::w_read_returned(fd, data),
+    ensures data.len() == 8, ne_val(data) == pending_counter(),
+{}
+//@ endregion
+//@ item src/sources/ping/eventfd.rs / fn drain_ping props=C03 ret=r
+//@ rw R17 * <<u64::from_ne_bytes(buf)>> => <<u64_from_ne_bytes(buf)>>
+//@ entry
+    proof { broadcast use axiom_eventfd_read; }
+//@ before <<Ok(u64::from_ne_bytes>>
+        proof { assert(buf@.take(8) =~= buf@); }
 //@ spec
+    // C03 (single drain per event): what the source decodes is the counter the kernel handed out, whole
     ensures r matches Ok(c) ==> c == pending_counter(),
 //@ enditem
 
